@@ -50,7 +50,9 @@ def gen_row(r, bc, cols, latin):
         if c == 'DE48':
             if use_pds or r.random() < 0.5:
                 continue
-            items = sorted((('%04d' % r.randrange(1, 9999)), cell_text(r, r.randrange(0, 20), False)) for _ in range(r.randrange(1, 4)))
+            cfgtags = [c[3:] for c in pdscols]
+            items = sorted(((r.choice(cfgtags) if r.random() < 0.6 else '%04d' % r.randrange(1, 9999)),
+                            cell_text(r, r.randrange(0, 20), False)) for _ in range(r.randrange(1, 4)))
             row[c] = ''.join('%s%03d%s' % (t, len(v), v) for t, v in dict(items).items())
             continue
         if py in ('int', 'long'):
@@ -134,8 +136,34 @@ def _drive(args):
                     outtext = o.getvalue()
             res['rout'] = [prow(x) for x in csv.DictReader(io.StringIO(outtext, newline=''))]
             ev = [ipmc.iev(1, 'write', m=row) for row in rows] + [ipmc.iev(1, 'fin'), ipmc.iev(1, 'file', b=ipm)]
-            res['ipmtrace'] = {'tid': 0, 'loc': False, 'strict': True, 'insts': [{'blk': blocked}], 'events': ev,
-                               '_desc': res['_desc'] + ' [IPM file in the middle]'}
+            # the whole output CSV: every data row must be the configured output columns of the reading of its record
+            for x in csv.DictReader(io.StringIO(outtext, newline='')):
+                e = ipmc.iev(1, 'csvrow')
+                e['d'] = [{'k': isoc.pkey(k), 'v': isoc.pval(v)} for k, v in x.items() if v not in ('', None)]
+                ev.append(e)
+            ev.append(ipmc.iev(1, 'csvend'))
+            if tid % 4 == 1 and enc in ('latin_1', 'cp500'):
+                # the legacy extractor (mideu extract) on the same IPM file: its CSV is judged by the same clause
+                from cardutil.cli import mideu
+                q = os.path.join(wd, 'c20m-%d-%d.ipm' % (os.getpid(), tid))
+                open(q, 'wb').write(ipm)
+                try:
+                    with contextlib.redirect_stdout(io.StringIO()):
+                        mideu.extract(config=cfg, input=q, sourceformat='ebcdic' if enc == 'cp500' else 'ascii',
+                                      no1014blocking=not blocked, csvoutputfile=q + '.csv')
+                    mtext = open(q + '.csv', newline='', encoding='utf8').read()
+                finally:
+                    for z in (q, q + '.csv'):
+                        if os.path.exists(z):
+                            os.unlink(z)
+                ev.append(ipmc.iev(1, 'given', b=ipm))
+                for x in csv.DictReader(io.StringIO(mtext, newline='')):
+                    e = ipmc.iev(1, 'csvrow')
+                    e['d'] = [{'k': isoc.pkey(k), 'v': isoc.pval(v)} for k, v in x.items() if v not in ('', None)]
+                    ev.append(e)
+                ev.append(ipmc.iev(1, 'csvend'))
+            res['ipmtrace'] = {'tid': 0, 'loc': False, 'strict': True, 'cols': [isoc.pkey(c) for c in cols], 'insts': [{'blk': blocked}],
+                               'events': ev, '_desc': res['_desc'] + ' [IPM file in the middle and the output CSV]'}
         except BaseException as ex:  # noqa
             res['kind'] = 'exc'
             res['_raw'] = drv.exc_outcome(ex)
